@@ -129,7 +129,8 @@ def _scratch_dir_with_distinct_job_ids(names):
     return tempfile.mkdtemp(prefix="aiuverif_")
 
 
-def e2e(argv_tail, files: dict[str, list[dict]], want_files=(), keep_dir=False):
+def e2e(argv_tail, files: dict[str, list[dict]], want_files=(), keep_dir=False, post=None, out_name="out.json",
+        in_dir=None):
     """Run the real Acelyzer API in-process.  `files`: name -> list of input events (written as
     {"traceEvents": [...]}).  Returns dict(rc, error, events, other, outdir-files requested).
     `post(ace)`: optional callback evaluated after a run that did not raise (e.g.
@@ -139,7 +140,9 @@ def e2e(argv_tail, files: dict[str, list[dict]], want_files=(), keep_dir=False):
     import aiu_trace_analyzer.logger as aiulog
     from aiu_trace_analyzer.core.acelyzer import Acelyzer
 
-    tmp = _scratch_dir_with_distinct_job_ids(list(files))
+    tmp = in_dir if in_dir is not None else _scratch_dir_with_distinct_job_ids(list(files))
+    if in_dir is not None:
+        keep_dir = True
     res = {"rc": None, "error": None, "events": None, "files": {}}
     try:
         paths = []
@@ -155,6 +158,8 @@ def e2e(argv_tail, files: dict[str, list[dict]], want_files=(), keep_dir=False):
                 ace = Acelyzer(["-i", ",".join(paths), "-o", out, "-D", "0", *argv_tail])
                 aiulog.loglevel = -1
                 res["rc"] = ace.run()
+                if post is not None:
+                    res["post"] = post(ace)
         except SystemExit as e:
             res["rc"] = e.code
             res["error"] = "SystemExit"
